@@ -53,6 +53,24 @@ CLAIMED = {
         category="translation_validation", design_ref="§5 C10", engine="S",
         text="Matrix source/target 18..25 x entry {ir.Model, ModelProto} x fallback {True, False} over models with the three adapter ops (GroupNormalization exact, DFT/GridSample uninterpreted over canonical attributes), unchanged ops, If-subgraphs, model-local functions, initializer-inputs. symonnx interprets each side under the opset it DECLARES (schema arity/attribute validation), so a half-converted model is a semantic counterexample; z3 decides equality for all inputs; declared version, function opsets, signature, initializers are side verdicts.",
         note=S_NOTE, technique="translation validation keyed by declared opset: symbolic ONNX semantics, z3 equivalence"),
+    "C12": dict(
+        category="other", design_ref="§5 C12", engine="Z+X",
+        text="(Z) for every promotion pipeline observed on the real front ends (python type -> constant dtype -> cast target), z3 QF_FP/BV at full bit width is asked for a Python float/int on which two front ends produce bitwise different tensors, and for two literals that share a GraphBuilder cache key but differ in bits (key relation probed on the real builder). (X) CrossHair differential lemma: autocast.cast_inputs and BuilderBase._cast_inputs choose the same cast target on abstract signatures. (A) registry-exhaustive enumeration, labelled: 260 schemas x positions x literals x sibling dtypes through the three real front ends at unit level.",
+        note="Trusted: z3 FP/BV theory; pipeline models validated against numpy conversions on concrete literals at every run; CrossHair models. Part (A) is enumeration over the installed schema registry.",
+        technique="z3 floating-point/bit-vector queries over pipeline models extracted from the real front ends + CrossHair differential lemma + registry enumeration"),
+    "C13": dict(
+        category="translation_validation", design_ref="§5 C13", engine="S+X",
+        text="For typed models from the script corpus (incl. adversarially renamed values: dots, digits, keywords, names colliding after clean-up) and tensor-typed generated models x export options: the generated source must compile, decorate, keep the signature, and symonnx + z3 decide [[roundtrip]] == [[original]] for ALL inputs (initializer-inputs symbolic). (X) CrossHair lemmas on the naming helpers (identifier-ness, idempotence, injectivity of the short mapper, attribute-conflict renamer).",
+        note=S_NOTE + " skip_initializers output is checked for syntax only.", technique="translation validation of the proto2python round trip: symbolic ONNX semantics, z3 equivalence; CrossHair lemmas on helpers"),
+    "C14": dict(
+        category="other", design_ref="§5 C14", engine="X",
+        text="(a) hash randomisation as a schedule: converter/analysis re-executed with every set iteration order chosen by CrossHair; FunctionProto bytes must not depend on it; confirmed with real PYTHONHASHSEED subprocesses. (b) histories as arbitrary pre-state: per-match fields of rule singletons (AST-discovered each run) havocked with symbolic values before rewrite(); bytes must equal the fresh-object run. (c) concrete probe: repeated to_model_proto, post-decoration rebinding of globals.",
+        note="Trusted: CrossHair; order cut applied in memory by vp/loader.py; <=4 schedule choices per translation; 4 rule targets. Narrow: file system / time / other processes not modelled.",
+        technique="symbolic execution (CrossHair+z3) with solver-chosen set-iteration schedules and havocked singleton state; PYTHONHASHSEED replay"),
+    "C18": dict(
+        category="translation_validation", design_ref="§5 C18", engine="S",
+        text="Seeded random traces through the real GraphBuilder/OpBuilder (literals in every position, _outputs, module scopes, If subgraphs capturing outer values) are shadowed by a symbolic replay that applies symonnx's rule per call with the property's own promotion rule; z3 decides [[built graph]] == replay for ALL inputs, and [[call]] == [[call_inline]] for script functions with attribute arguments. Naming of values/nodes and nn module trees (depth<=4) is enumeration, labelled.",
+        note=S_NOTE, technique="translation validation of traced graphs against a symbolic shadow replay; z3 equivalence; structural enumeration for names"),
     "C20": dict(
         category="other", design_ref="§5 C20", engine="X",
         text="CrossHair/z3 symbolic execution of the real save_model_with_external_data with ir.save stubbed: which initializers are uninitialised, path shape, verbose/tqdm and whether the save faults are solver variables; refusal-before-write, single call with <basename>.data, exception propagation and object identity of the initializers are decided over all combinations. Narrow: what onnx_ir.save does per file-system call is outside the claim.",
